@@ -15,6 +15,7 @@ import (
 	"crypto/x509"
 	"errors"
 	"fmt"
+	"os"
 	"strings"
 	"sync"
 	"time"
@@ -103,6 +104,8 @@ func main() {
 	for _, k := range []string{"tsa", "tsa-noncrit", "tsa-extra", "tsa-none", "tsa-keyusage", "tsa-ca"} {
 		tsaLeaf[k] = lib.Mint(tsaRoot, lib.CertSpec{CN: "c06-" + k, Kind: k, KeyIdx: 2, NotBefore: now.Add(-2900 * day), NotAfter: now.Add(2900 * day)})
 	}
+	// a TSA certificate issued only 50 days ago: fine today, but it did not exist when an older time was stamped
+	tsaLate := lib.Mint(tsaRoot, lib.CertSpec{CN: "c06-tsa-late", Kind: "tsa", KeyIdx: 2, NotBefore: now.Add(-50 * day), NotAfter: now.Add(2900 * day)})
 	untrustedTSA := lib.Mint(otherTSARoot, lib.CertSpec{CN: "c06-untrusted-tsa", Kind: "tsa", KeyIdx: 3, NotBefore: now.Add(-2900 * day), NotAfter: now.Add(2900 * day)})
 	// signing chains per window placement: root (always valid) -> issuer -> leaf
 	type chainT struct {
@@ -123,7 +126,7 @@ func main() {
 	desc := lib.Desc(ocispec.MediaTypeImageManifest, []byte("c06"))
 	payload := lib.Payload(desc)
 
-	tokens := []string{"absent", "good", "wrong-message", "untrusted-tsa", "tsa-root-in-ca-store-only", "eku-missing", "eku-extra", "eku-non-critical", "tsa-key-usage-without-signing", "tsa-certificate-is-a-ca", "tsa-store-unloadable", "tsa-store-empty", "tsa-revoked", "tsa-unknown", "tsa-validator-error",
+	tokens := []string{"absent", "good", "wrong-message", "untrusted-tsa", "tsa-root-in-ca-store-only", "eku-missing", "eku-extra", "eku-non-critical", "tsa-key-usage-without-signing", "tsa-certificate-is-a-ca", "tsa-store-unloadable", "tsa-store-empty", "tsa-certificate-younger-than-the-stamped-time", "tsa-revoked", "tsa-unknown", "tsa-validator-error",
 		"gen-before-windows", "gen-after-windows", "accuracy-straddles-lower-edge", "accuracy-straddles-upper-edge", "accuracy-just-inside-upper-edge", "garbage"}
 	var cases []caseT
 	combos := [][2]string{{lib.MediaJWS, "notary.x509"}, {lib.MediaCOSE, "notary.x509"}, {lib.MediaJWS, "notary.x509.signingAuthority"}, {lib.MediaCOSE, "notary.x509.signingAuthority"}}
@@ -254,6 +257,14 @@ func main() {
 			tsa, tokenOK = &lib.TSA{Key: tsaLeaf["tsa-keyusage"].Key, Chain: tsaLeaf["tsa-keyusage"].Chain()}, false
 		case "tsa-certificate-is-a-ca":
 			tsa, tokenOK = &lib.TSA{Key: tsaLeaf["tsa-ca"].Key, Chain: tsaLeaf["tsa-ca"].Chain()}, false
+		case "tsa-certificate-younger-than-the-stamped-time":
+			// the TSA's chain is judged at the time the token states, not at the time of verification
+			tsa = &lib.TSA{Key: tsaLate.Key, Chain: tsaLate.Chain()}
+			spec.NoSigningTimeAttr = true // (with the optional CMS attribute present the CMS layer would notice on its own)
+			if lo <= hi {
+				spec.GenTime = now.Add(lo).Add(day)
+			}
+			tokenOK = !spec.GenTime.Before(now.Add(-50 * day))
 		case "tsa-store-unloadable", "tsa-store-empty": // a perfectly good token, but the listed tsa store delivers nothing to chain it to
 			tokenOK = false
 		case "tsa-revoked":
@@ -301,6 +312,14 @@ func main() {
 			default:
 				ts.Put("tsa:t", tsaInTSAStore)
 			}
+			switch ci % 3 { // where the tsa store stands in the list does not matter
+			case 1:
+				stores = []string{"tsa:t", storeType + ":x"}
+			case 2:
+				otherType := map[string]string{"ca": "signingAuthority", "signingAuthority": "ca"}[storeType]
+				stores = []string{storeType + ":x", "tsa:t", otherType + ":o"}
+				ts.Put(otherType+":o", otherTSARoot.Cert)
+			}
 		}
 		L := lib.LevelMap{Auth: "log", TS: "log", Exp: "log", Rev: "log"}
 		if ci%3 == 0 {
@@ -316,7 +335,13 @@ func main() {
 		sv := L.SV(ci)
 		sv.VerifyTimestamp = trustpolicy.TimestampOption(c.VT)
 		trv := &tsRev{status: tsRevStatus}
-		v, err := verifier.NewVerifierWithOptions(ts, verifier.VerifierOptions{OCITrustPolicy: lib.OCIPolicy(sv, stores, []string{"*"}), RevocationCodeSigningValidator: lib.OKRev{}, RevocationTimestampingValidator: trv})
+		var v notation.Verifier
+		var err error
+		if (ci/3)%2 == 1 { // the deprecated constructor must hand the same validators on
+			v, err = verifier.NewWithOptions(lib.OCIPolicy(sv, stores, []string{"*"}), ts, nil, verifier.VerifierOptions{RevocationCodeSigningValidator: lib.OKRev{}, RevocationTimestampingValidator: trv})
+		} else {
+			v, err = verifier.NewVerifierWithOptions(ts, verifier.VerifierOptions{OCITrustPolicy: lib.OCIPolicy(sv, stores, []string{"*"}), RevocationCodeSigningValidator: lib.OKRev{}, RevocationTimestampingValidator: trv})
+		}
 		if err != nil {
 			panic(err)
 		}
@@ -359,6 +384,9 @@ func main() {
 		}
 		pass := at.Error == nil
 		wit["authentic_timestamp_error"] = fmt.Sprint(at.Error)
+		if os.Getenv("VERIF_DEBUG_TOKEN") != "" && c.Token == os.Getenv("VERIF_DEBUG_TOKEN") {
+			fmt.Printf("DEBUG %s pass=%v err=%v tokenOK=%v rangeInside=%v\n", id, pass, at.Error, tokenOK, rangeInside)
+		}
 		inWin := func(off time.Duration, w window) bool { return off >= w.nb && off <= w.na }
 		var mayPass bool
 		branch := ""
